@@ -36,6 +36,14 @@ def autoHTTPSRanges : List (String × String) := [("plain", "srvNames"), ("plain
 /-- modules/caddyhttp/fileserver/staticfiles.go: the literals of `var defaultIndexNames` -/
 def defaultIndexNames : List String := ["index.html", "index.txt"]
 
+/-- FileServer.Provision (staticfiles.go) and MatchFile.Provision (matcher.go): every top-level
+    `if x.F == "" / nil { x.F = v }` in source order: (type, field, v) -/
+def fileserverProvisionDefaults : List (String × String × String) := [("FileServer", "FileSystem", "\"{http.vars.fs}\""), ("FileServer", "Root", "\"{http.vars.root}\""), ("FileServer", "IndexNames", "defaultIndexNames"), ("MatchFile", "Root", "\"{http.vars.root}\""), ("MatchFile", "FileSystem", "\"{http.vars.fs}\""), ("MatchFile", "TryFiles", "[{http.request.uri.path}]")]
+
+/-- FileServer.ServeHTTP: every call of fileHidden / fs.Stat / openFile / serveBrowse / getEtagFromFile /
+    notFound / redirect / http.ServeContent in source order, with the file-name argument -/
+def serveHTTPCalls : List (String × String) := [("fs.Stat", "filename"), ("fsrv.notFound", ""), ("fileHidden", "indexPath"), ("fs.Stat", "indexPath"), ("fileHidden", "filename"), ("fsrv.serveBrowse", "filename"), ("fsrv.notFound", ""), ("fileHidden", "filename"), ("fsrv.notFound", ""), ("redirect", ""), ("redirect", ""), ("fileHidden", "compressedFilename"), ("fs.Stat", "compressedFilename"), ("fsrv.openFile", "compressedFilename"), ("fsrv.getEtagFromFile", "compressedFilename"), ("fsrv.openFile", "filename"), ("fsrv.notFound", ""), ("fsrv.getEtagFromFile", "filename"), ("http.ServeContent", "")]
+
 /-- every call of a Replacer's ReplaceAll / ReplaceKnown / ReplaceOrErr / ReplaceFunc in the consumers C18 models
     (map.go, headers.go, rewrite.go, vars.go, staticresp.go), in source order: (file, function, method, first argument) -/
 def replacerCallSites : List (String × String × String × String) := [
